@@ -282,7 +282,8 @@ macro_rules! v3_factory {
             start_senders(&w, &plan, ses.sink().clone());
         }
         async move {
-            Ok::<_, AppErr>(fn_service(move |p: v3::Publish| publish_handler(w.clone(), conn, p, "default")))
+            let w0 = w.clone();
+            Ok::<_, AppErr>(crate::common::GSvc { w: w0, conn, f: move |p: v3::Publish| publish_handler(w.clone(), conn, p, "default") })
         }
     });
 
